@@ -224,6 +224,33 @@ theorem wireOf_items (s : Status) (hn : (s.players.map (·.1)).Nodup) : WireOf s
   · simp only [items, objectivesOf_append, hf.2.1, hp.2.1, ho.2.1, List.nil_append]
   · simp only [items, pairsOf_append, hf.2.2 id, hp.2.2 id, ho.2.2 id, List.nil_append, List.append_nil]
 
+theorem pairsOf_not_mem (id : Nat) (w : List Item) (h : id ∉ idsOf w) : pairsOf id w = [] := by
+  unfold pairsOf
+  rw [List.filterMap_eq_nil_iff]
+  intro it hit
+  cases it with
+  | player i k v =>
+    have : i ≠ id := by
+      rintro rfl
+      exact h (List.mem_filterMap.mpr ⟨_, hit, rfl⟩)
+    simp [this]
+  | _ => rfl
+
+/-- the executable check decides `WireOf` -/
+theorem wireOfB_iff (s : Status) (w : List Item) : wireOfB s w = true ↔ WireOf s w := by
+  simp only [wireOfB, Bool.and_eq_true, beq_iff_eq, List.all_eq_true, List.mem_append]
+  constructor
+  · rintro ⟨⟨h1, h2⟩, h3⟩
+    refine ⟨h1, h2, fun id => ?_⟩
+    by_cases hm : id ∈ s.players.map (·.1) ∨ id ∈ idsOf w
+    · exact h3 id hm
+    · simp only [not_or] at hm
+      rw [pairsOf_not_mem id w hm.2, pairsFor_not_mem s.players id]
+      intro p hp e
+      exact hm.1 (List.mem_map.mpr ⟨p, hp, e⟩)
+  · intro hw
+    exact ⟨⟨hw.fields, hw.objectives⟩, fun id _ => hw.players id⟩
+
 /-! ## maps: a Go map does not depend on the order of insertion of different keys -/
 
 theorem foldl_insField_sorted (kvs m : List (Bytes × Bytes)) (h : (keysG m).Pairwise (· < ·)) :
